@@ -87,6 +87,8 @@ def run(pid, tier, seed):
         # 1. the design: exhaustive TLC run of the model for this property's configuration
         mcp = MC_OF.get(pid, pid)
         cfgs = ["MC_%s.cfg" % mcp] if q else ["MC_%s.cfg" % mcp, "MC_%st.cfg" % mcp]
+        if os.path.exists(os.path.join(common.SPEC, "MC_%sp.cfg" % mcp)):
+            cfgs.append("MC_%sp.cfg" % mcp)      # with a client that stops reading for a while (client-side back-pressure)
         if not q and os.path.exists(os.path.join(common.SPEC, "MC_%sL.cfg" % mcp)):
             cfgs.append("MC_%sL.cfg" % mcp)      # liveness: every behaviour reaches quiescence (RcProxy!Terminates)
         for cfgname in cfgs:
